@@ -472,7 +472,7 @@ theorem ackCore_timer {s1 : State} {env : Env} {ranges : List Range} {lvl : Leve
   unfold State.ackCore at hok ⊢
   by_cases h1 : s1.ackedBuf > 0
   · simp [h1] at hok
-  · by_cases h2' : lvl = .oneRTT ∧ sp.hist.skipped.any (acksPacket ranges lowest largest)
+  · by_cases h2' : lvl = .oneRTT ∧ sp.hist.skipped.any (acksPacketBin ranges lowest largest)
     · simp [h1, h2'] at hok
     · simp only [h1, h2', if_false] at hok ⊢
       cases hc : collect (decide (ranges.length > 1)) lowest largest sp.hist.first sp.hist.packets ranges.reverse sp.hist.probes [] [] with
@@ -656,11 +656,12 @@ theorem ptoSwitch_shrunk (s : State) (lvl : Level) (nts : PN) (evs0 : List Ev) (
 
 theorem timeoutMain_shrunk (s : State) (env : Env) (now : Time) (nts : PN) (evs0 : List Ev) (disc0 : List Frame) :
     Shrunk (s.timeoutMain env now nts evs0 disc0).1 s := by
-  unfold State.timeoutMain
+  unfold State.timeoutMain State.timeoutMainG
   split
   · exact detectLostPackets_shrunk _ _ _ _
   · split
-    · simp only []
+    · unfold State.antiDeadlockProbe
+      simp only []
       split
       · exact Shrunk_eq rfl rfl rfl
       · split <;> exact Shrunk_eq rfl rfl rfl
